@@ -59,6 +59,8 @@ class World:
         self.model2 = tp.models.FCN(X, U, hidden=(3,))
         self.model3 = tp.models.QRES(X, U, hidden=(3, 2))
         self.model4 = tp.models.DeepRitzNet(X, U, width=3, depth=2)
+        # a Fourier neural operator with batch normalisation (running statistics are state, too)
+        self.model5 = tp.models.FNO(Space({"f": 1}), U, fourier_layers=1, hidden_channels=2, fourier_modes=2, space_resolution=6)
         self.D = tp.models.Parameter(init=0.7, space=Space({"D": 1}))
         self.J = tp.models.Parameter(init=0.3, space=Space({"J": 1}))      # only used by the periodic condition
         self.K = tp.models.Parameter(init=2, space=Space({"K": 1}))        # initial guess given as a Python int
@@ -126,6 +128,11 @@ class World:
             net, fset = self.deeponet_r()
             fn = (lambda u, x: u - x) if kind == "pideeponet_r" else (lambda u, x: u + 0.5 * x * x)
             c = Cn.PIDeepONetCondition(net, fset, S.GridSampler(self.dom, 3 if kind == "pideeponet_r" else 2).make_static(), fn, weight=weight, name=kind)
+        elif kind == "fno_data":
+            g = torch.linspace(0, 1, 6).reshape(1, 6, 1)
+            fin = torch.cat([torch.sin(3 * g + i) for i in range(4)], 0)
+            ld = PointsDataLoader((Points(fin, Space({"f": 1})), Points(0.5 * fin ** 2, U)), batch_size=2)
+            c = Cn.DataCondition(self.model5, ld, norm=2, weight=weight, name=kind)
         elif kind == "ritznet":
             c = Cn.PINNCondition(self.model4, S.GridSampler(self.dom, 4).make_static(), lambda u, x: u - x * x, weight=weight, name=kind)
         elif kind == "pinn_static_interval":
